@@ -177,6 +177,11 @@ func (w *walker) walk(v Val, where string, at token.Pos) {
 		w.walk(x.List, where+"(fold)", at)
 	case Global:
 		w.globals = append(w.globals, x.Name)
+	case Opq:
+		// a value held by the parser object (yylex.(*Parser).x): the same object on every use
+		if strings.HasPrefix(x.What, "parser.") && !(x.What == "parser.currentToken" && where == "ast.Root.EndTkn") {
+			w.globals = append(w.globals, x.What+" (into "+where+")")
+		}
 	}
 }
 
@@ -461,7 +466,7 @@ func (l *Lang) Linear(shapes map[string]*Shape) *report.RuleResult {
 				}
 			}
 			for _, g := range w.globals {
-				bad[pkey+"/global:"+g] = fmt.Sprintf("package-level object %s is placed in the tree on path [%s]: the same node object would sit at several positions of one tree and be shared between parses", g, pathLabel(p))
+				bad[pkey+"/global:"+g] = fmt.Sprintf("the package-level or parser-held object %s is placed in the tree on path [%s]: the same object would sit at several positions of one tree (or be shared between parses); only the end-of-input token may come from the parser, as Root.EndTkn", g, pathLabel(p))
 			}
 			whole := map[int]int{}
 			parts := map[int]map[string]int{}
@@ -1073,6 +1078,13 @@ func (l *Lang) PosSpan(shapes map[string]*Shape) *report.RuleResult {
 				}
 				nobj++
 				posv, ok := pv.(PosV)
+				if _, isNil := pv.(Nil); hasPos && !ok && !isNil {
+					// neither built by the position builder here nor absent: the node takes over a position object that
+					// belongs to something else. Two nodes then share one *Position, and whatever extends one of
+					// them later (the PHP 5 chain folds do) moves the other as well.
+					bad[k+"/shared-position"] = fmt.Sprintf("%s takes %s as its Position instead of a position built for it: the object is shared with its owner", o.TName, pv)
+					continue
+				}
 				if !hasPos || !ok {
 					if ro, isRes := p.Result.(*Obj); isRes && ro == o {
 						continue // the consumers of this nonterminal must set it (checked where the value is placed)
